@@ -77,6 +77,22 @@ func (p *Prog) containerRoot(v ssa.Value, depth int) *types.Var {
 				return r
 			}
 		}
+	case *ssa.Parameter:
+		f := x.Parent()
+		idx := -1
+		for i, pr := range f.Params {
+			if pr == x {
+				idx = i
+			}
+		}
+		for _, site := range p.CallersOf(f) {
+			args := site.Common().Args
+			if idx >= 0 && idx < len(args) {
+				if r := p.containerRoot(args[idx], depth+1); r != nil {
+					return r
+				}
+			}
+		}
 	case *ssa.Call:
 		// result of a container method: Front(), Back(), Next(), Prev() ...
 		c := x.Common()
@@ -162,6 +178,15 @@ func (fc *freshCtx) baseIsFresh(addr ssa.Value) bool {
 			addr = x.X
 		case *ssa.IndexAddr:
 			addr = x.X
+		case *ssa.Slice:
+			addr = x.X
+		case *ssa.UnOp:
+			// a container loaded from a field of an object: private if the object is private and not a copy (deep mode)
+			if x.Op == token.MUL && fc.deep {
+				addr = x.X
+				continue
+			}
+			return fc.fresh(addr, 0)
 		default:
 			return fc.fresh(addr, 0)
 		}
